@@ -675,6 +675,10 @@ class TextXVisitor(RRELVisitor):
             root_rule = Sequence(
                 nodes=[root_rule], rule_name=rule_name, root=True, **rule_params
             )
+            # `split` is not consumed by Sequence: keep it on the rule, where
+            # the RREL scope provider looks it up.
+            if "split" in rule_params:
+                root_rule.split = rule_params["split"]
         else:
             if not isinstance(root_rule, RuleCrossRef):
                 # Promote rule node to root node.
